@@ -386,6 +386,12 @@ def shape_of(rng, ncols=1, nvals=None, idpos=None, optional_types=(), directed=N
     items = [("f", i) for i in man]
     for g in groups:                                   # an optional group anywhere, also first
         items.insert(r.below(len(items) + 1), g)
+    for g in groups:
+        # asn1fix_cws.c:asn1f_next_literal_chunk climbs ONE level only: a group that ends with a nested group must end the whole
+        # syntax, or the setting before the `]]` swallows the rest of the object (clean refusal, exit 65; seen, avoided)
+        if any(x[0] == "g" for x in g[1]):
+            items.remove(g)
+            items.append(g)
     return fields, items
 
 
